@@ -1127,7 +1127,8 @@ func ruleCursorDirection(c *Ctx, cts []cursorType, rule, paramRule string) {
 	// (3) a function that hands out a set cursor and is told the direction uses what it is told: a direction
 	// parameter nothing reads means one of the two directions is served with the other's cursor
 	for _, fn := range c.prodFuncs("boltz") {
-		if fn.Parent() != nil || fn.Blocks == nil || fn.Signature.Results().Len() != 1 || !isSetCursorIface(fn.Signature.Results().At(0).Type()) {
+		// (function literals too: a cursor provider is a closure that is told the direction)
+		if fn.Blocks == nil || fn.Signature.Results().Len() != 1 || !isSetCursorIface(fn.Signature.Results().At(0).Type()) {
 			continue
 		}
 		for _, prm := range fn.Params {
